@@ -247,7 +247,7 @@ var kindBits = map[string]uint32{"bool": 1, "i8": 8, "u8": 8, "i16": 16, "u16": 
 	"i64": 64, "u64": 64, "f64": 64}
 var allKinds = []string{"void", "bool", "i8", "i16", "i32", "i64", "u8", "u16", "u32", "u64", "f32", "f64", "enum", "text",
 	"data", "list", "struct", "iface", "any"}
-var listElts = []string{"u64", "text", "struct", "enum", "list", "bool", "data", "any", "iface", "i8", "f64"}
+var listElts = []string{"u64", "text", "struct", "enum", "list", "bool", "data", "any", "iface", "i8", "f64", "void"}
 
 type schemaGen struct {
 	r       *rng
@@ -446,6 +446,57 @@ func randomEntries(seed uint64, count int) []*entry {
 			}
 		}
 		es = append(es, &entry{name: fmt.Sprintf("r%d", i), source: "random", req: g.build(fmt.Sprintf("r%d", i))})
+	}
+	return es
+}
+
+// boundaryEntries: sparse structs at the limits of the struct node: dataWordCount / pointerCount up
+// to 65535 (ObjectSize must not wrap: 8192 words = 65536 bytes), a few fields at the extreme
+// offsets of every width, a pointer in the last slot, the union discriminant far out.
+func boundaryEntries() []*entry {
+	var es []*entry
+	for i, c := range []struct{ dwc, pc uint32 }{{8192, 1}, {8191, 0}, {8200, 65535}, {65535, 0}, {65535, 1}, {65535, 65535}} {
+		name := fmt.Sprintf("bnd_%d_%d", c.dwc, c.pc)
+		r := &rng{s: 99 + uint64(i)}
+		g := &schemaGen{r: r, base: name + ".capnp"}
+		g.nextID = 0x7654321 + uint64(i+1)*0x20000000000
+		g.fileID, g.enumID, g.ifaceID = g.newID(), g.newID(), g.newID()
+		n := &nodeSpec{id: g.newID(), name: "S0", dwc: uint16(c.dwc), pc: uint16(c.pc)}
+		g.nodes = append(g.nodes, n)
+		g.structs = append(g.structs, n)
+		nd := schema.Field_noDiscriminant
+		w := c.dwc
+		add := func(node *nodeSpec, f *fieldSpec) {
+			g.nfield++
+			f.name = fmt.Sprintf("f%d", g.nfield)
+			node.fields = append(node.fields, f)
+		}
+		// last word: a 64-bit field; the word before: u8, one bit, i16 (default), u32 (default)
+		add(n, &fieldSpec{kind: "u64", off: w - 1, disc: nd})
+		add(n, &fieldSpec{kind: "u8", off: 8 * (w - 2), disc: nd})
+		add(n, &fieldSpec{kind: "bool", off: 64*(w-2) + 8, disc: nd, defBits: 1})
+		add(n, &fieldSpec{kind: "i16", off: 4*(w-2) + 1, disc: nd, defBits: 0xcfc7}) // -12345
+		add(n, &fieldSpec{kind: "u32", off: 2*(w-2) + 1, disc: nd, defBits: 0xdeadbeef})
+		// union: discriminant in word w-3, members: f64 in word w-4, a pointer (or void)
+		n.discCount = 2
+		n.discOff = 4 * (w - 3)
+		add(n, &fieldSpec{kind: "f64", off: w - 4, disc: 0})
+		if c.pc > 0 {
+			add(n, &fieldSpec{kind: "text", off: c.pc - 1, disc: 1, defText: "t1234"})
+		} else {
+			add(n, &fieldSpec{kind: "void", disc: 1})
+		}
+		if c.pc > 2 {
+			add(n, &fieldSpec{kind: "struct", off: c.pc - 2, disc: nd})
+			add(n, &fieldSpec{kind: "list", off: 0, disc: nd, listElt: "u64"})
+		}
+		// a group with a field far out and its own far discriminant
+		grp := &nodeSpec{id: g.newID(), isGroup: true, discCount: 2, discOff: 4*(w-5) + 3}
+		g.nodes = append(g.nodes, grp)
+		add(grp, &fieldSpec{kind: "i32", off: 2 * (w - 5), disc: 0, defBits: 0xffffffff})
+		add(grp, &fieldSpec{kind: "enum", off: 4*(w-5) + 2, disc: 1, defBits: 2})
+		add(n, &fieldSpec{kind: "group", disc: nd, group: grp})
+		es = append(es, &entry{name: name, source: "boundary", req: g.build(name)})
 	}
 	return es
 }
